@@ -316,3 +316,21 @@ package core
 //@ extern net/http.NewResponseController(rw)
 //@   trusted
 //@   ensures res != nil
+
+// encoding/json encoder bound to a response writer: Encode is a Write on that writer; lastEncoded remembers the value
+//@ ghost field encW ref
+//@ ghost var lastEncoded interface{}
+//@ extern encoding/json.NewEncoder(w)
+//@   trusted
+//@   modifies ghost encW
+//@   ensures res != nil && fresh(res) && ghost(res).encW == w
+//@ extern (*encoding/json.Encoder).Encode(v)
+//@   trusted
+//@   modifies ghost started, ghost status, gvar lastEncoded
+//@   records lastEncoded = v
+//@   ensures forall x ref :: x != ghost(self).encW ==> ghost(x).started == old(ghost(x).started) && ghost(x).status == old(ghost(x).status)
+//@   ensures ghost(ghost(self).encW).started && (!old(ghost(ghost(self).encW).started) ==> ghost(ghost(self).encW).status == 200) && (old(ghost(ghost(self).encW).started) ==> ghost(ghost(self).encW).status == old(ghost(ghost(self).encW).status))
+
+// a plain io.Writer sink (pipe, buffer): writing changes nothing the proofs talk about
+//@ extern (io.Writer).Write(p)
+//@   trusted
